@@ -20,11 +20,13 @@ func init() {
 		Rule: "one case = (MTU, OBU sequence: type, extension ids, payload size relative to the MTU, size field on all or omitted on the last); packetized by AV1Payloader, checked by the reference aggregation-rule checker, reassembled through AV1Depacketizer and through AV1Packet + frame.AV1; complete sub-domains (LEB128, OBU headers) are swept inside executions; non-trivial = more than one packet or more than one element in a packet",
 		Assumptions: []string{
 			"sequences of 1-2 OBUs over the full alphabets (types {0,1,2,3,4,5,6,8,15}, extension none/(0,0)/(1,0)/(0,1)/(2,1), 8-13 sizes), 3 OBUs over 4 types x 3 extensions x 4 sizes, 4 OBUs over 3x3x3 (thorough: 5 OBUs over 3x2x2); MTU {2,3,4,5,6,8,16,130,131,200}",
+			"wide scenario: all sequences of 6-8 OBUs over {frame 1B, frame MTU-1 B, temporal delimiter, frame with another layer id} for MTU {4,9,40}; every OBU type 0-15 x every extension (t,s) with t in 0..7, s in 0..3 alone and after a frame; input size fields padded to non-minimal LEB128; 64-300 one- and two-byte OBUs in one call (more than 256 elements in a packet); OBUs of 16383/16384/70000 bytes (3-byte LEB128 sizes, more than 256 fragments) for MTU {5,200,20000,65535}",
 			"OBU payload bytes are position dependent; OBU contents are not parsed by the RTP layer",
 			"LEB128: all 2^32 values in the thorough tier; quick: 4096 values on each side of every 7-bit boundary and a 2^16-stride sweep",
 		},
 		Scenarios: []mc.Scenario{
 			{Name: "payloader-depacketizer-roundtrip", Tiers: "qt", ShardDepth: 4, Run: c13Roundtrip},
+			{Name: "long-sequences-and-large-obus", Tiers: "qt", ShardDepth: 3, Run: c13Wide},
 			{Name: "leb128", Tiers: "qt", ShardDepth: 1, Run: c13Leb},
 			{Name: "obu-header-all-byte-pairs", Tiers: "qt", ShardDepth: 1, Run: c13Header},
 		},
@@ -104,9 +106,13 @@ func c13Describe(mtu int, obus []ref.OBU, omitLast bool) string {
 }
 
 func c13Run(c *mc.Ctx, mtu int, obus []ref.OBU, omitLast bool) {
-	in := ref.AV1Stream(obus, omitLast)
+	c13RunBytes(c, mtu, obus, ref.AV1Stream(obus, omitLast), c13Describe(mtu, obus, omitLast))
+}
+
+// c13RunBytes packetizes the serialised stream in (which stands for obus) and checks it.
+func c13RunBytes(c *mc.Ctx, mtu int, obus []ref.OBU, in []byte, what string) {
 	keep := clone(in)
-	desc := func() string { return c13Describe(mtu, obus, omitLast) }
+	desc := func() string { return what }
 	payloads := (&codecs.AV1Payloader{}).Payload(uint16(mtu), in)
 	c.Ops(1)
 	if c.Verbose() {
@@ -328,4 +334,84 @@ func c13Header(c *mc.Ctx) {
 		c.NonTrivial()
 	}
 	c.Outcome(fmt.Sprintf("accepted=%v", accepted > 0))
+}
+
+// c13Wide: dimensions the product scenario keeps small, taken one at a time.
+func c13Wide(c *mc.Ctx) {
+	omit := c.Bool()
+	switch c.Pick(5) {
+	case 3: // non-minimal (padded) LEB128 size fields in the input, which the AV1 syntax allows
+		mtu := mc.From(c, []int{4, 10, 200})
+		pad := 1 + c.Pick(3)
+		n := 1 + c.Pick(3)
+		var in []byte
+		var obus []ref.OBU
+		for i := 0; i < n; i++ {
+			o := ref.OBU{Type: []uint8{6, 1, 3}[i%3], Payload: fill(mc.From(c, []int{0, 5, 130}), byte(i*9))}
+			obus = append(obus, o)
+			in = append(in, o.Header(true)...)
+			sz := ref.Leb128(uint64(len(o.Payload)))
+			for k := 0; k < pad; k++ {
+				sz[len(sz)-1] |= 0x80
+				sz = append(sz, 0x00)
+			}
+			in = append(in, sz...)
+			in = append(in, o.Payload...)
+		}
+		c13RunBytes(c, mtu, obus, in, fmt.Sprintf("mtu=%d %d OBUs with size fields padded by %d bytes", mtu, n, pad))
+	case 4: // very many elements in one packet
+		mtu := mc.From(c, []int{1200, 65535})
+		n := mc.From(c, []int{64, 255, 256, 257, 300})
+		var obus []ref.OBU
+		if c.Bool() {
+			obus = append(obus, ref.OBU{Type: 6, Payload: fill(mtu+100, 1)})
+		}
+		for i := 0; i < n; i++ {
+			obus = append(obus, ref.OBU{Type: 6, Payload: fill(1+i%2, byte(i))})
+		}
+		c13Run(c, mtu, obus, omit)
+	case 0: // long sequences
+		mtu := mc.From(c, []int{4, 9, 40})
+		n := 6 + c.Pick(3)
+		obus := make([]ref.OBU, n)
+		for i := range obus {
+			switch c.Pick(4) {
+			case 0:
+				obus[i] = ref.OBU{Type: 6, Payload: fill(1, byte(i))}
+			case 1:
+				obus[i] = ref.OBU{Type: 6, Payload: fill(mtu-1, byte(i))}
+			case 2:
+				obus[i] = ref.OBU{Type: 2}
+			case 3:
+				obus[i] = ref.OBU{Type: 6, HasExt: true, TID: uint8(i % 3), SID: uint8(i % 2), Payload: fill(2, byte(i))}
+			}
+		}
+		c13Run(c, mtu, obus, omit)
+	case 1: // every type and every extension value
+		mtu := mc.From(c, []int{3, 6, 200})
+		typ := uint8(c.Pick(16))
+		o := ref.OBU{Type: typ, Payload: fill(mc.From(c, []int{0, 1, mtu, 2*mtu + 1}), 7)}
+		if e := c.Pick(33); e > 0 {
+			o.HasExt, o.TID, o.SID = true, uint8(e-1)>>2, uint8(e-1)&3
+		}
+		obus := []ref.OBU{o}
+		if c.Bool() {
+			obus = []ref.OBU{{Type: 6, HasExt: o.HasExt, TID: o.TID, SID: o.SID, Payload: fill(3, 1)}, o}
+		}
+		c13Run(c, mtu, obus, omit)
+	case 2: // large OBUs
+		mtu := mc.From(c, []int{5, 200, 20000, 65535})
+		size := mc.From(c, []int{16382, 16383, 16384, 70000})
+		if mtu == 5 && size > 20000 {
+			return
+		}
+		obus := []ref.OBU{{Type: 6, Payload: fill(size, 3)}}
+		if c.Bool() {
+			obus = append([]ref.OBU{{Type: 1, Payload: fill(4, 2)}}, obus...)
+		}
+		if c.Bool() {
+			obus = append(obus, ref.OBU{Type: 6, Payload: fill(130, 4)})
+		}
+		c13Run(c, mtu, obus, omit)
+	}
 }
